@@ -1,5 +1,6 @@
 import Amgcl.Driver.Util
 import Amgcl.Model.Schedule
+import Amgcl.Model.ScheduleSort
 /-! handlers for the C09 schedule ops (harness/h_sched.cpp) -/
 namespace Amgcl.Driver.Schedule
 open Amgcl Amgcl.Driver Amgcl.Sched
@@ -18,10 +19,13 @@ def showTables (nt : Nat) (tk : List (List (List Nat))) : String :=
 pattern) the harness prints the reverse-thread execution instead, and so does the model -/
 def schedOut (fwd : Bool) (pat : Pattern) (level : Array Nat) (nt : Nat) (upd : Vec Rat → Nat → Vec Rat)
     (serial : Vec Rat) (x : Vec Rat) : String :=
-  let tk := tasks level nt
+  -- steps 2-4 executed statement by statement (counting sort, chunking, `ord[tid]` gathered through `order`);
+  -- `Amgcl.C09.schedule_literal_eq_spec` proves `scheduleLit = tasks`; the run-time comparison is a cross-check only
+  let tk := scheduleLit level nt
   let nl := nlev level
   let cs := countingSort level
   if cs.1 != order level || cs.2 != (List.range (nl + 1)).map (start level) then "model-inconsistent: counting sort" else
+  if tk != tasks level nt then "model-inconsistent: literal schedule differs from its specification" else
   let adv := [reverseThreadSchedule tk nl, roundRobinSchedule tk nl, threadOrderSchedule tk nl]
   if !(adv.all (isExec gsExpectedSkeleton tk nl)) then "model-inconsistent: adversarial schedule not in Exec" else
   let cf := conflictFree fwd pat level
